@@ -172,7 +172,7 @@ func cmdWorker() {
 				byPkg[job.Spec.Pkg] = l
 			}
 			so := solveOpts{workers: solverWorkers, timeoutMs: 120000, solvers: []string{"z3-new", "z3"}}
-			if tier == "thorough" {
+			if tier == "thorough" && !job.Spec.QuickSolve {
 				so.timeoutMs = 600000
 				so.cross = "z3"
 				so.solvers = []string{"z3-new", "cvc5"}
@@ -335,7 +335,22 @@ func runProperty(id, tier, only string) int {
 	}
 	specs := ps.Quick
 	if tier == "thorough" && len(ps.Thorough) > 0 {
-		specs = ps.Thorough
+		// the deeper variants, plus every quick harness that has no deeper variant (run with the quick
+		// tier's solver settings: the second-solver cross-check is only affordable where it was measured)
+		specs = append([]HarnessSpec{}, ps.Thorough...)
+		base := func(f string) string {
+			return strings.TrimSuffix(strings.TrimSuffix(f, "_q"), "_t")
+		}
+		have := map[string]bool{}
+		for _, h := range ps.Thorough {
+			have[base(h.Func)] = true
+		}
+		for _, h := range ps.Quick {
+			if !have[base(h.Func)] {
+				h.QuickSolve = true
+				specs = append(specs, h)
+			}
+		}
 	}
 	seed := 0
 	if s := os.Getenv("VERIF_SEED"); s != "" {
